@@ -10,6 +10,11 @@ def default_into_data(val):
     return ret_into_data(val)
 
 
+# some key of mapping m satisfies f (natively decided by enumerating the keys of m)
+def exists_key(m, f):
+    return exists_val(lambda k_: mhas(m, k_) and f(k_))
+
+
 # ---------------------------------------------------------------------------------------------
 # UnionConverter.into_data: uses the FIRST member whose fast pass accepts the value (C11)
 SPEC("pane.converters", "UnionConverter.into_data",
@@ -51,7 +56,7 @@ SPEC("pane.converters", "DictConverter.into_data",
      note="assumed: serialised keys are hashable (interchange scalars)",
      ensures=[(lambda self, val, result: forall_val(lambda k: implies(mhas(val, k), mhas(result, dict_key_ser(self, k)))), ["C05", "C18"], "ser-keys"),
               (lambda self, val, result: forall_val(lambda k2: implies(mhas(result, k2),
-                                                                      exists_val(lambda k: mhas(val, k) and dict_key_ser(self, k) == k2
+                                                                      exists_key(val, lambda k: dict_key_ser(self, k) == k2
                                                                                  and mget(result, k2) == dict_val_ser(self, mget(val, k))))),
                ["C05", "C18"], "ser-values")])
 
